@@ -2,6 +2,8 @@ package ipfsproxy
 
 import (
 	"fmt"
+	"io"
+	"io/ioutil"
 	"net/http"
 	"time"
 
@@ -124,6 +126,10 @@ func (proxy *Server) copyHeadersFromIPFSWithRequest(
 		logger.Error("error making request for header extraction to ipfs: ", err)
 		return err
 	}
+	defer func() {
+		io.Copy(ioutil.Discard, res.Body)
+		res.Body.Close()
+	}()
 
 	for _, h := range hdrs {
 		dest[h] = res.Header[h]
